@@ -166,6 +166,7 @@ theorem catch_match (env : Env) (lang : Option Bytes) (b rest sym : Bytes) (sig 
     runCatch env lang b s =
       (do logMove "CATCH" sym
           let (actual, _) ← applyTarget sym
+          vmReset
           getCodeM env lang actual : VM Bytes) s := by
   unfold runCatch
   simp [decodeErr, hp, matchFlagM, getFlagM, hf]
